@@ -2,6 +2,7 @@ import DspVerif.Model.Slice
 import Mathlib.Tactic.Linarith
 import Mathlib.Tactic.Ring
 import Mathlib.Tactic.SplitIfs
+import Mathlib.Data.List.Nodup
 /-!
 # C04 — slices select and assign exactly the numpy-designated elements
 
@@ -90,5 +91,400 @@ theorem count_eq (r1 r2 m : Int) (hm : m ≠ 0) :
   by_cases h : r1 = r2
   · subst h; simp
   · rw [if_neg h, ceil_div _ _ (by omega) ht]
+
+
+
+/-- the five situations in which the statement allows an exception:
+empty array, zero step, start outside [-n, n-1], stop outside [-n, n],
+or a step whose sign contradicts the order of the resolved indices -/
+def MayThrow (n i1 i2 m : Int) : Prop :=
+  n = 0 ∨ m = 0 ∨ ¬(-n ≤ i1 ∧ i1 ≤ n - 1) ∨ ¬(-n ≤ i2 ∧ i2 ≤ n) ∨
+  (m < 0 ∧ res n i1 < res n i2) ∨ (m > 0 ∧ res n i1 > res n i2)
+
+/-! ### helpers: the element count -/
+
+theorem count_nonneg (r1 r2 m : Int) : 0 ≤ count r1 r2 m := by
+  unfold count
+  simp only [Int.ofNat_eq_natCast]
+  have h : 0 ≤ Int.tdiv (Int.natAbs (r2 - r1) : Int) (Int.natAbs m : Int) :=
+    Int.tdiv_nonneg (by omega) (by omega)
+  split <;> omega
+
+theorem count_le_abs (r1 r2 m : Int) : count r1 r2 m ≤ (Int.natAbs (r2 - r1) : Int) := by
+  by_cases hm : m = 0
+  · subst hm
+    unfold count
+    simp only [Int.ofNat_eq_natCast, Int.natAbs_zero, Int.tmod_zero, Int.tdiv_zero, Int.natCast_zero]
+    split <;> omega
+  · rw [count_eq _ _ _ hm]
+    split
+    · omega
+    · have := Int.ediv_le_self (a := (Int.natAbs (r2 - r1) : Int) - 1) (Int.natAbs m : Int) (by omega)
+      omega
+
+/-- T04.1a the acceptance region of the generated constructor is exactly the complement of the five situations -/
+theorem accept_iff (n i1 i2 m : Int) (hn : 0 ≤ n) : Accept n i1 i2 m ↔ ¬ MayThrow n i1 i2 m := by
+  have hc := count_le_abs (res n i1) (res n i2) m
+  unfold Accept MayThrow
+  generalize count (res n i1) (res n i2) m = c at hc
+  unfold res at *
+  split_ifs at * <;> omega
+
+/-- T04.1 the constructor throws exactly in the five listed situations -/
+theorem throws_iff (n i1 i2 m : Int) (hn : 0 ≤ n) :
+    (∃ e, BaseSlice.ctor n i1 i2 m = .error e) ↔ MayThrow n i1 i2 m := by
+  have hs := ctor_spec n i1 i2 m
+  have ha := accept_iff n i1 i2 m hn
+  constructor
+  · rintro ⟨e, he⟩
+    by_contra hmt
+    have := hs.1 (ha.2 hmt)
+    rw [this] at he
+    cases he
+  · intro hmt
+    exact hs.2 (fun hacc => ha.1 hacc hmt)
+
+/-! ### helpers: a returned slice is `built`, Python reference, position bounds -/
+
+/-- inversion of `ctor_spec`: when the constructor returns, the arguments were accepted and the object is `built` -/
+theorem ok_built (n i1 i2 m : Int) (s : BaseSlice)
+    (h : BaseSlice.ctor n i1 i2 m = .ok s) : Accept n i1 i2 m ∧ s = built n i1 i2 m := by
+  have hs := ctor_spec n i1 i2 m
+  by_cases ha : Accept n i1 i2 m
+  · refine ⟨ha, ?_⟩
+    have := hs.1 ha
+    rw [this] at h
+    injection h with h
+    exact h.symm
+  · obtain ⟨e, he⟩ := hs.2 ha
+    rw [he] at h
+    cases h
+
+theorem pyLen_eq (r1 r2 m : Int) (hm : m ≠ 0) (h3 : ¬(m < 0 ∧ r1 < r2)) (h4 : ¬(m > 0 ∧ r1 > r2)) :
+    pyLen r1 r2 m = count r1 r2 m := by
+  rw [count_eq _ _ _ hm]; unfold pyLen
+  by_cases hpos : m > 0
+  · have e1 : (Int.natAbs m : Int) = m := by omega
+    rw [e1, if_pos hpos]
+    by_cases h : r1 < r2
+    · have e2 : (Int.natAbs (r2 - r1) : Int) = r2 - r1 := by omega
+      rw [e2, if_pos h, if_neg (by omega)]
+    · have : r1 = r2 := by omega
+      rw [if_neg h, if_pos this]
+  · have e1 : (Int.natAbs m : Int) = -m := by omega
+    rw [e1, if_neg hpos]
+    by_cases h : r2 < r1
+    · have e2 : (Int.natAbs (r2 - r1) : Int) = r1 - r2 := by omega
+      rw [e2, if_pos h, if_neg (by omega)]
+    · have : r1 = r2 := by omega
+      rw [if_neg h, if_pos this]
+
+theorem pyStart_eq1 (n i1 i2 m : Int) (ha : Accept n i1 i2 m) : pyStart n i1 m = res n i1 := by
+  obtain ⟨h0, hm, h1, h2, h3, h4, _⟩ := ha
+  unfold pyStart
+  unfold res at *
+  split_ifs at * <;> omega
+
+theorem pyStart_eq2 (n i1 i2 m : Int) (ha : Accept n i1 i2 m) : pyStart n i2 m = res n i2 := by
+  obtain ⟨h0, hm, h1, h2, h3, h4, _⟩ := ha
+  unfold pyStart
+  unfold res at *
+  split_ifs at * <;> omega
+
+theorem step_bound (d t j : Int) (ht : 0 < t) (hj : j < (d - 1) / t + 1) : j * t ≤ d - 1 := by
+  have h1 : j ≤ (d - 1) / t := by omega
+  have h2 := Int.mul_le_mul_of_nonneg_right h1 (Int.le_of_lt ht)
+  have h3 := Int.ediv_mul_le (d - 1) (Int.ne_of_gt ht)
+  omega
+
+/-- the `j`-th position lies in `[r1, r2)` for a positive step and in `(r2, r1]` for a negative step -/
+theorem idx_bounds (r1 r2 m : Int) (hm : m ≠ 0) (h3 : ¬(m < 0 ∧ r1 < r2)) (h4 : ¬(m > 0 ∧ r1 > r2))
+    (j : Nat) (hj : (j : Int) < count r1 r2 m) :
+    (m > 0 → r1 ≤ r1 + j * m ∧ r1 + j * m < r2) ∧ (m < 0 → r2 < r1 + j * m ∧ r1 + j * m ≤ r1) := by
+  rw [count_eq _ _ _ hm] at hj
+  by_cases h : r1 = r2
+  · rw [if_pos h] at hj; omega
+  rw [if_neg h] at hj
+  constructor
+  · intro hpos
+    have e1 : (Int.natAbs m : Int) = m := by omega
+    have e2 : (Int.natAbs (r2 - r1) : Int) = r2 - r1 := by omega
+    rw [e1, e2] at hj
+    have := step_bound _ _ _ hpos hj
+    have : 0 ≤ (j : Int) * m := Int.mul_nonneg (by omega) (by omega)
+    omega
+  · intro hneg
+    have e1 : (Int.natAbs m : Int) = -m := by omega
+    have e2 : (Int.natAbs (r2 - r1) : Int) = r1 - r2 := by omega
+    rw [e1, e2] at hj
+    have := step_bound _ _ _ (by omega) hj
+    have : 0 ≤ (j : Int) * (-m) := Int.mul_nonneg (by omega) (by omega)
+    rw [Int.mul_neg] at *
+    omega
+
+/-- T04.2 when it returns, the slice denotes exactly Python's `x[i1:i2:m]`, in the same order -/
+theorem slice_denotes (n i1 i2 m : Int) (hn : 0 ≤ n) (s : BaseSlice)
+    (h : BaseSlice.ctor n i1 i2 m = .ok s) : indices s = pyIndices n i1 i2 m := by
+  have _ := hn
+  obtain ⟨ha, rfl⟩ := ok_built n i1 i2 m s h
+  unfold pyIndices indices built
+  simp only
+  rw [pyStart_eq1 n i1 i2 m ha, pyStart_eq2 n i1 i2 m ha, pyLen_eq _ _ _ ha.2.1 ha.2.2.2.2.1 ha.2.2.2.2.2.1]
+
+/-- T04.3 every position the iterator touches lies inside the array -/
+theorem in_bounds (n i1 i2 m : Int) (hn : 0 ≤ n) (s : BaseSlice)
+    (h : BaseSlice.ctor n i1 i2 m = .ok s) : ∀ x ∈ indices s, 0 ≤ x ∧ x < n := by
+  obtain ⟨ha, rfl⟩ := ok_built n i1 i2 m s h
+  intro x hx
+  unfold indices built at hx
+  simp only [List.mem_map, List.mem_range] at hx
+  obtain ⟨j, hj, rfl⟩ := hx
+  obtain ⟨h0, hm, h1, h2, h3, h4, _⟩ := ha
+  have hb := idx_bounds _ _ _ hm h3 h4 j (by omega)
+  omega
+
+/-- the positions are pairwise distinct (so "writes exactly those positions" is well defined) -/
+theorem indices_nodup (n i1 i2 m : Int) (hn : 0 ≤ n) (s : BaseSlice)
+    (h : BaseSlice.ctor n i1 i2 m = .ok s) : (indices s).Nodup := by
+  have _ := hn
+  obtain ⟨ha, rfl⟩ := ok_built n i1 i2 m s h
+  unfold indices
+  refine List.Nodup.map ?_ List.nodup_range
+  intro a b hab
+  simp only [built] at hab
+  have : (a : Int) * m = b * m := by omega
+  have := Int.eq_of_mul_eq_mul_right ha.2.1 this
+  omega
+
+theorem res_idem (n i : Int) (h : 0 ≤ res n i) : res n (res n i) = res n i := by
+  unfold res at *
+  split_ifs at * <;> omega
+
+/-- re-running the constructor on the stored members `(n, i1, i2, m)` of a constructed slice returns the same object -/
+theorem copy_same_aux (n i1 i2 m : Int) (s : BaseSlice)
+    (h : BaseSlice.ctor n i1 i2 m = .ok s) : BaseSlice.ctor s.n s.i1 s.i2 s.m = .ok s := by
+  obtain ⟨ha, rfl⟩ := ok_built n i1 i2 m s h
+  have e1 := res_idem n i1 (by have := ha.2.2.1; omega)
+  have e2 := res_idem n i2 (by have := ha.2.2.2.1; omega)
+  have hb : built n (res n i1) (res n i2) m = built n i1 i2 m := by
+    unfold built; rw [e1, e2]
+  have ha' : Accept n (res n i1) (res n i2) m := by
+    unfold Accept; rw [e1, e2]; exact ha
+  have := (ctor_spec n (res n i1) (res n i2) m).1 ha'
+  rw [hb] at this
+  exact this
+
+/-- T04.5 a copy of a slice object denotes the same elements (three copy constructors, generated argument lists) -/
+theorem copy_same_const_from_const (n i1 i2 m : Int) (hn : 0 ≤ n) (s : BaseSlice)
+    (h : BaseSlice.ctor n i1 i2 m = .ok s) :
+    BaseSlice.ctor (copyArgs_const_from_const s).1 (copyArgs_const_from_const s).2.1
+      (copyArgs_const_from_const s).2.2.1 (copyArgs_const_from_const s).2.2.2 = .ok s := by
+  have _ := hn
+  exact copy_same_aux n i1 i2 m s h
+
+theorem copy_same_const_from_mut (n i1 i2 m : Int) (hn : 0 ≤ n) (s : BaseSlice)
+    (h : BaseSlice.ctor n i1 i2 m = .ok s) :
+    BaseSlice.ctor (copyArgs_const_from_mut s).1 (copyArgs_const_from_mut s).2.1
+      (copyArgs_const_from_mut s).2.2.1 (copyArgs_const_from_mut s).2.2.2 = .ok s := by
+  have _ := hn
+  exact copy_same_aux n i1 i2 m s h
+
+theorem copy_same_mut_from_mut (n i1 i2 m : Int) (hn : 0 ≤ n) (s : BaseSlice)
+    (h : BaseSlice.ctor n i1 i2 m = .ok s) :
+    BaseSlice.ctor (copyArgs_mut_from_mut s).1 (copyArgs_mut_from_mut s).2.1
+      (copyArgs_mut_from_mut s).2.2.1 (copyArgs_mut_from_mut s).2.2.2 = .ok s := by
+  have _ := hn
+  exact copy_same_aux n i1 i2 m s h
+
+/-! ### T04.4: no 32-bit overflow inside the box; machine-checked witnesses that the box cannot be widened
+
+With `n = i1 = 2^30` the first conjunct `n + i1 < 2^31` fails.  Tightening only `n` to `n < 2^30`
+(as the docstring says) is still not enough: `n = 0, i1 = -2^30, i2 = 2^30` gives
+`res n i2 - res n i1 = 2^31`. -/
+
+/-- the box of `no_overflow` cannot be widened to `0 ≤ n ≤ 2^30`: `n = 2^30, i1 = 2^30, i2 = 0, m = 1` (then `n + i1 = 2^31`) -/
+theorem no_overflow_box_tight :
+    ¬ (∀ (n i1 i2 m : Int), 0 ≤ n → n ≤ 2^30 → (-(2^30) ≤ i1 ∧ i1 ≤ 2^30) →
+      (-(2^30) ≤ i2 ∧ i2 ≤ 2^30) → (-(2^31) < m ∧ m < 2^31) →
+      let I32 := fun (x : Int) => -(2^31) ≤ x ∧ x < 2^31
+      I32 (n + i1) ∧ I32 (n + i2) ∧ I32 (res n i2 - res n i1) ∧ I32 (Int.natAbs (res n i2 - res n i1)) ∧
+        I32 (Int.natAbs m) ∧ I32 (count (res n i1) (res n i2) m)) := by
+  intro h
+  have := (h (2^30) (2^30) 0 1 (by omega) (by omega) (by omega) (by omega) (by omega)).1
+  simp only at this
+  omega
+
+/-- nor can `n = 0` be admitted together with `|i| ≤ 2^30`: `n = 0, i1 = -2^30, i2 = 2^30, m = 1`
+    (then `res n i2 - res n i1 = 2^31`) -/
+theorem no_overflow_box_tight' :
+    ¬ (∀ (n i1 i2 m : Int), 0 ≤ n → n < 2^30 → (-(2^30) ≤ i1 ∧ i1 ≤ 2^30) →
+      (-(2^30) ≤ i2 ∧ i2 ≤ 2^30) → (-(2^31) < m ∧ m < 2^31) →
+      let I32 := fun (x : Int) => -(2^31) ≤ x ∧ x < 2^31
+      I32 (n + i1) ∧ I32 (n + i2) ∧ I32 (res n i2 - res n i1) ∧ I32 (Int.natAbs (res n i2 - res n i1)) ∧
+        I32 (Int.natAbs m) ∧ I32 (count (res n i1) (res n i2) m)) := by
+  intro h
+  have := (h 0 (-(2^30)) (2^30) 1 (by omega) (by omega) (by omega) (by omega) (by omega)).2.2.1
+  simp only [res] at this
+  omega
+
+/-- T04.4, variant A: `0 < n < 2^30` (the constructor rejects `n = 0` before any arithmetic),
+    `|i1|,|i2| ≤ 2^30`, `m ≠ INT_MIN` -/
+theorem no_overflow (n i1 i2 m : Int) (hn : 0 < n) (hn' : n < 2^30) (h1 : -(2^30) ≤ i1 ∧ i1 ≤ 2^30)
+    (h2 : -(2^30) ≤ i2 ∧ i2 ≤ 2^30) (hm : -(2^31) < m ∧ m < 2^31) :
+    let I32 := fun (x : Int) => -(2^31) ≤ x ∧ x < 2^31
+    I32 (n + i1) ∧ I32 (n + i2) ∧ I32 (res n i2 - res n i1) ∧ I32 (Int.natAbs (res n i2 - res n i1)) ∧
+      I32 (Int.natAbs m) ∧ I32 (count (res n i1) (res n i2) m) := by
+  intro I32
+  have hc0 := count_nonneg (res n i1) (res n i2) m
+  have hc1 := count_le_abs (res n i1) (res n i2) m
+  generalize count (res n i1) (res n i2) m = c at hc0 hc1
+  simp only [I32]
+  unfold res at *
+  split_ifs at * <;> omega
+
+/-- T04.4, variant B: `0 ≤ n ≤ 2^30` kept, strict bounds `|i1|,|i2| < 2^30`, `m ≠ INT_MIN` -/
+theorem no_overflow' (n i1 i2 m : Int) (hn : 0 ≤ n) (hn' : n ≤ 2^30) (h1 : -(2^30) < i1 ∧ i1 < 2^30)
+    (h2 : -(2^30) < i2 ∧ i2 < 2^30) (hm : -(2^31) < m ∧ m < 2^31) :
+    let I32 := fun (x : Int) => -(2^31) ≤ x ∧ x < 2^31
+    I32 (n + i1) ∧ I32 (n + i2) ∧ I32 (res n i2 - res n i1) ∧ I32 (Int.natAbs (res n i2 - res n i1)) ∧
+      I32 (Int.natAbs m) ∧ I32 (count (res n i1) (res n i2) m) := by
+  intro I32
+  have hc0 := count_nonneg (res n i1) (res n i2) m
+  have hc1 := count_le_abs (res n i1) (res n i2) m
+  generalize count (res n i1) (res n i2) m = c at hc0 hc1
+  simp only [I32]
+  unfold res at *
+  split_ifs at * <;> omega
+
+/-! ### assignment -/
+variable {α : Type} [Inhabited α]
+
+omit [Inhabited α] in
+theorem setI_length (a : List α) (i : Int) (v : α) : (setI a i v).length = a.length := by
+  unfold setI; split <;> simp
+
+theorem getI_setI (a : List α) (i p : Int) (v : α) (hi : 0 ≤ i ∧ i < a.length) (hp : 0 ≤ p) :
+    getI (setI a i v) p = if p = i then v else getI a p := by
+  unfold getI setI
+  rw [if_neg (by omega)]
+  by_cases h : p = i
+  · subst h
+    have : p.toNat < a.length := by omega
+    simp [List.getD_eq_getElem?_getD, this]
+  · rw [if_neg h]
+    have : i.toNat ≠ p.toNat := by omega
+    simp [List.getD_eq_getElem?_getD, List.getElem?_set_ne this]
+
+set_option linter.unusedSectionVars false in
+theorem scatter_length (a : List α) (idx : List Int) (vals : List α) :
+    (scatter a idx vals).length = a.length := by
+  induction idx generalizing a vals with
+  | nil => simp [scatter]
+  | cons i is ih =>
+    cases vals with
+    | nil => simp [scatter]
+    | cons v vs => simp only [scatter]; rw [ih, setI_length]
+
+/-- scatter writes exactly the listed positions: position `idx[j]` receives `vals[j]`, every other cell is unchanged -/
+theorem scatter_get (a : List α) (idx : List Int) (vals : List α) (hnd : idx.Nodup)
+    (hb : ∀ x ∈ idx, 0 ≤ x ∧ x < a.length) (hl : idx.length = vals.length) (p : Int) (hp : 0 ≤ p ∧ p < a.length) :
+    getI (scatter a idx vals) p =
+      match idx.idxOf? p with
+      | some j => vals.getD j default
+      | none => getI a p := by
+  induction idx generalizing a vals with
+  | nil => simp [scatter]
+  | cons i is ih =>
+    cases vals with
+    | nil => simp at hl
+    | cons v vs =>
+      simp only [scatter]
+      have hi := hb i (by simp)
+      rw [List.nodup_cons] at hnd
+      rw [ih (setI a i v) vs hnd.2 (by
+            intro x hx; rw [setI_length]; exact hb x (by simp [hx])) (by simpa using hl)
+            (by rw [setI_length]; exact hp)]
+      rw [List.idxOf?_cons, getI_setI a i p v hi hp.1]
+      by_cases h : i = p
+      · subst h
+        have : List.idxOf? i is = none := by simpa using hnd.1
+        simp [this]
+      · have h' : ¬ p = i := fun e => h e.symm
+        simp only [beq_iff_eq, h, if_false, h']
+        cases List.idxOf? p is <;> simp
+
+/-- T04.6 / T04.8 assignment of a slice (possibly of the same array, any overlap, any strides):
+    every destination position `(indices d)[j]` receives the value the SOURCE array held at `(indices s)[j]`
+    BEFORE the assignment (the source is read first), every other cell is unchanged -/
+theorem assign_spec (dstArr srcArr : List α) (nd i1 i2 m ns j1 j2 k : Int) (d s : BaseSlice)
+    (hnd : nd = dstArr.length) (hns : ns = srcArr.length)
+    (hd : BaseSlice.ctor nd i1 i2 m = .ok d) (hs : BaseSlice.ctor ns j1 j2 k = .ok s) (hc : d.nc = s.nc)
+    (p : Int) (hp : 0 ≤ p ∧ p < dstArr.length) :
+    ∃ r, assignSlice dstArr srcArr d s = .ok r ∧ r.length = dstArr.length ∧
+      getI r p = match (indices d).idxOf? p with
+        | some j => getI srcArr ((indices s).getD j 0)
+        | none => getI dstArr p := by
+  have _ := hns
+  have _ := hs
+  have hcn : ¬ d.nc ≠ s.nc := by simp [hc]
+  refine ⟨scatter dstArr (indices d) (gather srcArr (indices s)), ?_, scatter_length _ _ _, ?_⟩
+  · unfold assignSlice; rw [if_neg hcn]
+  · have hlen : (indices d).length = (gather srcArr (indices s)).length := by
+      simp [indices, gather, hc]
+    have hbd : ∀ x ∈ indices d, 0 ≤ x ∧ x < (dstArr.length : Int) := by
+      subst hnd; exact in_bounds _ i1 i2 m (by omega) d hd
+    rw [scatter_get dstArr (indices d) _ (indices_nodup nd i1 i2 m (by omega) d hd) hbd hlen p hp]
+    cases h : List.idxOf? p (indices d) with
+    | none => rfl
+    | some j =>
+      simp only
+      have hj : j < (indices d).length := (List.idxOf?_eq_some_iff.1 h).1
+      have hj' : j < (indices s).length := by
+        have : (indices s).length = (indices d).length := by simp [indices, hc]
+        omega
+      unfold gather
+      simp [List.getD_eq_getElem?_getD, hj']
+
+/-- T04.7 different element counts are rejected (nothing is written: the model returns no array) -/
+theorem assign_len (dstArr srcArr : List α) (d s : BaseSlice) (hc : d.nc ≠ s.nc) :
+    ∃ e, assignSlice dstArr srcArr d s = .error e := by
+  unfold assignSlice
+  rw [if_pos hc]
+  exact ⟨_, rfl⟩
+
+set_option linter.unusedSectionVars false in
+theorem assignList_len (a : List α) (d : BaseSlice) (rhs : List α) (hc : d.nc ≠ rhs.length) :
+    ∃ e, assignList a d rhs = .error e := by
+  unfold assignList
+  rw [if_pos hc]
+  exact ⟨_, rfl⟩
+
+/-- scalar fill writes exactly the slice positions -/
+theorem fill_spec (a : List α) (n i1 i2 m : Int) (d : BaseSlice) (v : α) (hn : n = a.length)
+    (hd : BaseSlice.ctor n i1 i2 m = .ok d) (p : Int) (hp : 0 ≤ p ∧ p < a.length) :
+    getI (fill a d v) p = if p ∈ indices d then v else getI a p := by
+  have hbd : ∀ x ∈ indices d, 0 ≤ x ∧ x < (a.length : Int) := by
+    subst hn; exact in_bounds _ i1 i2 m (by omega) d hd
+  unfold fill
+  rw [scatter_get a (indices d) _ (indices_nodup n i1 i2 m (by omega) d hd) hbd
+    (by simp [indices]) p hp]
+  by_cases hmem : p ∈ indices d
+  · rw [if_pos hmem]
+    cases h : List.idxOf? p (indices d) with
+    | none => exact absurd hmem (List.idxOf?_eq_none_iff.1 h)
+    | some j =>
+      simp only
+      have hj : j < d.nc.toNat := by
+        have := (List.idxOf?_eq_some_iff.1 h).1
+        simpa [indices] using this
+      simp [List.getD_eq_getElem?_getD, hj]
+  · rw [if_neg hmem, List.idxOf?_eq_none_iff.2 hmem]
+
+/-! ### non-vacuity: concrete instances of the hypotheses -/
+example : BaseSlice.ctor 10 3 (-1) 2 = .ok { i1 := 3, i2 := 9, m := 2, n := 10, nc := 3 } := by decide
+example : indices { i1 := 3, i2 := 9, m := 2, n := 10, nc := 3 } = [3, 5, 7] := by decide
+example : pyIndices 10 3 (-1) 2 = [3, 5, 7] := by decide
+example : BaseSlice.ctor 10 8 1 (-3) = .ok { i1 := 8, i2 := 1, m := -3, n := 10, nc := 3 } := by decide
+example : pyIndices 10 8 1 (-3) = [8, 5, 2] := by decide
 
 end Dsp.C04
